@@ -17,7 +17,8 @@ def units(tier):
 
 
 def runner_tasks(tier):
-    return [{"module": "c13", "task": "roundtrip", "kind": "bounded", "clause": "print/parse round trip, repr, names"}]
+    return [{"module": "c13", "task": "roundtrip", "kind": "bounded", "clause": "print/parse round trip, repr, names"},
+            {"module": "stateful", "task": "C13", "name": "stateful C13", "kind": "bounded", "clause": "print -> parse after other parses of the same text were edited by their owners; counts just below one; trace counts"}]
 
 
 REPLAY = {"module": "c13", "task": "replay"}
